@@ -11,7 +11,7 @@ From AV Require Import Base.Bytes Base.Outcome Hash.HashModel Tree.Heap Tree.Ops
   Tree.Index Tree.IndexProofsBase Tree.IndexProofsAssoc Tree.IndexProofsFrame Tree.IndexProofsAttach
   Tree.IndexProofsTree Tree.IndexProofsCreate Tree.IndexProofsNamed Tree.IndexProofsEdit Tree.Refs Tree.RefsProofsBase Tree.RefsProofs
   Tree.Follow Tree.FollowProofsPath Tree.FollowProofsLoop Tree.FollowProofsLoopG Tree.FollowProofsRename Tree.FollowProofsTree
-  Tree.FollowProofsMove Tree.IndexProofsRename Tree.IndexProofsRenameOps Tree.IndexProofsSetName Tree.RefsProofsSetName
+  Tree.FollowProofsMove Tree.FollowProofsIter Tree.FollowProofsContainer Tree.IndexProofsRename Tree.IndexProofsRenameOps Tree.IndexProofsSetName Tree.RefsProofsSetName
   Tree.IndexProofsRemove Tree.IndexProofsRemoveOp Tree.IndexProofsMoveTree Tree.Fail Tree.FailProofsMove.
 Open Scope string_scope.
 Open Scope list_scope.
@@ -126,7 +126,6 @@ Variable each : list (list N) -> W unit.
 Variable inner : list N -> list id -> W unit.
 Hypothesis Hty1 : n_type n1 = n_type n.
 Hypothesis Hnoref : isref T (n_type n) = false.
-Hypothesis Hsd : src <> dest.
 Let kf := fun k : list N => option_map (app dest) (strip_prefix src k).
 Hypothesis inner_ok : forall p' rl w w',
   inner p' rl w = Val (OK tt, w') ->
@@ -154,10 +153,13 @@ Hypothesis each_cons : forall k r,
 Definition F (u : world) : world := mkWorld (upd (w_nodes u) self n1) (w_next u) (w_files u) (w_models u).
 
 Lemma loop_virtual : forall todo u u',
+  (forall k, In k todo -> src <> dest) ->
   each todo u = Val (OK tt, u') -> w_nodes u self = Some n -> J5 (F u) ->
   w_nodes u' self = Some n /\ J5 (F u').
 Proof.
-  induction todo as [|k todo IH]; intros u u' H Hself HJ.
+  induction todo as [|k todo IH]; intros u u' Hsd0 H Hself HJ;
+    [|assert (Hsd : src <> dest) by (apply (Hsd0 k); left; reflexivity);
+      assert (IH' := fun u u' => IH u u' (fun k0 Hk0 => Hsd0 k0 (or_intror Hk0))); clear IH; rename IH' into IH].
   - rewrite each_nil in H. apply wret_inv in H as (_ & ->). auto.
   - rewrite each_cons in H. apply wbind_inv in H as [(a & u1 & E & H)|(e & _ & [=])]. destruct a.
     destruct (model_at u m) as [xc|] eqn:Hxc.
@@ -347,10 +349,10 @@ Proof.
     end.
     - reflexivity.
     - exact Hnoref.
-    - exact Hsd.
     - intros p' rl wa wb Hi. exact (inner_sem_move T check_fn (inner p') p' version eq_refl (fun _ _ => eq_refl) rl wa wb Hi).
     - reflexivity.
     - intros k rr. destruct (strip_prefix src k); reflexivity.
+    - intros k0 _. exact Hsd.
     - exact Eloop.
     - exact Hself4.
     - eapply (reloc_j5 T check_fn TK w _ mv sp self s mn pn n sn rest0 kpos p m xm nm src dpre _ ids); eauto.
@@ -365,6 +367,240 @@ Proof.
         apply N.eqb_neq in Ej4. rewrite upd_neq by exact Ej4. rewrite Hnode4, Ej1, Ej2, Ej3. reflexivity.
       + unfold F, w4. cbn [w_models]. rewrite M1. reflexivity.
       + intros Hnm Hk c2 rest c2n Hc Hc2. eapply (remove_front_false T w sp pn mv kpos (N.eqb mv)); eauto. apply N.eqb_refl. }
+  destruct (Hpass (List.length (n_content n)) (le_n _)) as (Hn5' & _).
+  { intros E0. unfold identifiable. rewrite Hn. unfold identifiable_n, short_child. destruct (n_content n); [apply andb_false_r|discriminate]. }
+  assert (n5 = n) by congruence. subst n5.
+  apply N.ltb_ge in Elen.
+  destruct (Hpass (N.to_nat pos)) as (_ & HJ); [lia|exact Hfd|]. exact HJ.
+Qed.
+
+(* ---------- move_element_local, the moved element NOT identifiable (a container), successful, no path collision *)
+Theorem move_local_container_j5 self mv pos m version w w' r :
+  J5 w ->
+  move_element_local T check_fn self mv pos m version w = Val (OK r, w') ->
+  MReach T w m mv -> MReach T w m self -> identifiable T w mv = false -> self <> mv ->
+  (forall n, w_nodes w self = Some n -> content_mode T (n_type n) <> Val MCharacters) ->
+  (N.to_nat pos = O -> identifiable T w self = false) ->
+  (forall mn sp, w_nodes w mv = Some mn -> n_parent mn = PElem sp -> remove_front T w sp (N.eqb mv) = false) ->
+  is_short_node T w mv = false ->
+  (forall mn, w_nodes w mv = Some mn -> n_parent mn <> PElem self) ->
+  collision06 T w self mv = false -> model_of mv w = Val (OK m, w) ->
+  J5 w'.
+Proof.
+  intros (HT & H4 & H5) H HRmv HRself Hid Hsm Hselfmode Hfd Hfs Hnshort Hnotchild Hcol Hmodmv. unfold move_element_local in H.
+  wk H. apply get_node_inv in E as (n & Hn & Q & _). injection Q as ->.
+  wk H. apply wget_inv in E as ([= ->] & _).
+  wk H. destruct a; [discriminate H|]. rename E into Eanc.
+  wk H. apply get_node_inv in E as (mn & Hmn & Q & _). injection Q as ->.
+  wk H. destruct a as [sp|]; [|discriminate H]. rename E into Epar.
+  wk H. wk H. wk H. destruct a1; [discriminate H|].
+  wk H. wk H.
+  match goal with E : dfs_ids _ mv w = Val (OK ?x, w) |- _ => rename E into Edfs; rename x into ids end.
+  match goal with E : named_paths T ids w = Val (OK ?x, w) |- _ => rename E into Enp; rename x into orig end.
+  match goal with E : path_unchecked T mn w = Val (OK ?x, w) |- _ => rename E into Esrc; rename x into src end.
+  match goal with E : path_unchecked T n w = Val (OK ?x, w) |- _ => rename E into Edst; rename x into dest end.
+  destruct (path_unchecked_spec T w m mv mn HT Hmn HRmv) as (_ & Hps). destruct (Hps _ _ Esrc) as (_ & (src0 & [= <-] & Hsp)).
+  destruct (path_unchecked_spec T w m self n HT Hn HRself) as (_ & Hpd). destruct (Hpd _ _ Edst) as (_ & (dp0 & [= <-] & Hdp)).
+  assert (Hnc : NoCollision T w m mv src dest).
+  { unfold collision06 in Hcol. rewrite Hn, Hmn, Esrc, Edst, Hmodmv in Hcol.
+    intros xm0 k suf x Hxm0 Hk _ Hks Hne. rewrite Hxm0 in Hcol. apply Bool.negb_false_iff in Hcol.
+    eapply nocollision_b_sound; eauto. }
+  assert (Hpar : n_parent mn = PElem sp).
+  { unfold parent_of in Epar. destruct (n_parent mn); try discriminate Epar. apply wret_inv in Epar as ([= ->] & _). reflexivity. }
+  assert (Hmsp : mv <> sp) by (intros <-; exact (no_self_parent w mv mn HT Hmn Hpar)).
+  assert (Hidn : identifiable_n T w mn = false) by (unfold identifiable in Hid; rewrite Hmn in Hid; exact Hid).
+  pose proof (slashfree_names T w (i4_slash _ _ _ H4)) as HNS.
+  assert (Hself_out : ~ reach T w mv self).
+  { intros Hr. assert (false = true); [|discriminate]. eapply (ancestor_is_sound T w mv HT _ self n); eauto. }
+  assert (Hids_D : forall j, In j ids <-> reach T w mv j).
+  { intros j. split; [intros Hj; apply (creach_reach T); eapply dfs_sound; eauto|intros Hj; eapply dfs_covers; [apply (reach_creach T); exact Hj|exact Edfs]]. }
+  (* detach *)
+  wk H. rename E into Edet. unfold detach_from in Edet. wk Edet.
+  apply get_node_inv in E as (pn & Hpn & Q & _). injection Q as ->.
+  destruct (index_of (citem_is mv) (n_content pn)) as [kpos|] eqn:Eidx; [|discriminate Edet].
+  apply set_node_inv in Edet as (_ & ->).
+  (* re-parent *)
+  wk H. apply modify_node_inv in E as (n1 & Hn1 & _ & ->). cbn [w_nodes] in Hn1. rewrite upd_neq in Hn1 by exact Hmsp.
+  assert (n1 = mn) by congruence. subst n1. clear Hn1.
+  wk H. apply get_node_inv in E as (mn2 & Hmn2 & Q & _). injection Q as ->.
+  cbn [w_nodes] in Hmn2. rewrite upd_eq in Hmn2. injection Hmn2 as <-.
+  match type of H with wbind _ _ ?ww = _ => set (w2 := ww) in * end.
+  assert (Hw2names : forall i, option_map n_name (w_nodes w2 i) = option_map n_name (w_nodes w i)).
+  { intros i. unfold w2. cbn [w_nodes]. unfold upd.
+    destruct (i =? mv) eqn:Ei1; [apply N.eqb_eq in Ei1; subst i; rewrite Hmn; reflexivity|].
+    destruct (i =? sp) eqn:Ei2; [apply N.eqb_eq in Ei2; subst i; rewrite Hpn; reflexivity|reflexivity]. }
+  wk H. apply (is_identifiable_val T) in E as (_ & [= ->]).
+  rewrite (identifiable_n_same T w w2 mn (set_parent mn (PElem self)) Hw2names eq_refl eq_refl), Hidn in H.
+  wk H. apply wret_inv in E as ([= ->] & _).
+  destruct HRmv as (xm & Hxm & Hrootmv). pose proof (ex_intro _ xm (conj Hxm Hrootmv) : MReach T w m mv) as HRmv.
+  assert (Hxm2 : model_at w2 m = Some xm) by exact Hxm.
+  (* the snapshot: the paths of the identifiable elements of the subtree *)
+  assert (Htodo : forall k, In k (map fst orig) ->
+            exists x, assoc_get k (m_idents xm) = Some x /\ reach T w mv x /\ identifiable T w x = true /\ SpecPath T w m x k).
+  { intros k Hk. apply in_map_iff in Hk as ((k0 & x) & Hk0 & Hin). cbn in Hk0. subst k0.
+    destruct (named_paths_sound T w ids orig Enp k x Hin) as (Hxi & nx & Hnx & Hpx).
+    assert (Hrx : reach T w mv x) by (apply Hids_D; exact Hxi).
+    assert (HRx : MReach T w m x) by (exists xm; split; [exact Hxm|eapply reach_trans; eauto]).
+    destruct (path_of_spec T w m x nx HT Hnx HRx) as (_ & Hps2). destruct (Hps2 _ _ Hpx) as (_ & Hif).
+    destruct (identifiable T w x) eqn:Eix; [|discriminate Hif]. destruct Hif as (p0 & [= <-] & Hspx).
+    exists x. split; [|auto]. apply (i4_exact _ _ _ H4 m xm Hxm). split; [exact HRx|]. split; assumption. }
+  assert (Hintodo : forall k x, assoc_get k (m_idents xm) = Some x -> reach T w mv x -> In k (map fst orig)).
+  { intros k x Hgx Hrx. pose proof (proj1 (i4_exact _ _ _ H4 m xm Hxm k x) Hgx) as (HRx & Hidx & Hspx).
+    unfold identifiable in Hidx. destruct (w_nodes w x) as [nx|] eqn:Hnx; [|discriminate Hidx].
+    assert (Hnmd : is_named T (n_type nx) = Val true).
+    { unfold identifiable_n in Hidx. apply andb_true_iff in Hidx as (Hnm & _). unfold named in Hnm.
+      destruct (is_named T (n_type nx)) as [[|]| |]; try discriminate Hnm. reflexivity. }
+    assert (Hxi : In x ids) by (apply Hids_D; exact Hrx).
+    destruct (named_paths_val T w ids orig Enp x nx Hxi Hnx Hnmd) as (r0 & Hr0).
+    destruct (path_of_spec T w m x nx HT Hnx HRx) as (_ & Hps2). destruct (Hps2 _ _ Hr0) as (_ & Hif).
+    assert (Hidx2 : identifiable T w x = true) by (unfold identifiable; rewrite Hnx; exact Hidx).
+    rewrite Hidx2 in Hif. destruct Hif as (p0 & -> & Hsp0).
+    destruct (specpath_fun T w m m x _ _ HT Hspx Hsp0) as (_ & <-).
+    change k with (fst (k, x)). apply in_map. eapply named_paths_covers; eauto. }
+  assert (Hsuf : forall k x, assoc_get k (m_idents xm) = Some x -> reach T w mv x ->
+            exists u, k = src ++ u /\ u <> [] /\ boundary u = true).
+  { intros k x Hk Hrx. pose proof (proj1 (i4_exact _ _ _ H4 m xm Hxm k x) Hk) as (_ & Hix & Hspx).
+    eapply (below_strict_suffix T w m mv x); eauto; [exact (i4_named _ _ _ H4)|]. intros <-. congruence. }
+  assert (HA : forall op u, In op (map fst orig) -> op = src ++ u ->
+            forall k s, In k (keys (m_idents xm)) -> boundary s = true -> k = (dest ++ u) ++ s -> False).
+  { intros op u Hop Hu k s Hk Hb Heq. destruct (Htodo op Hop) as (x & Hgx & Hrx & _ & _).
+    destruct (Hsuf op x Hgx Hrx) as (u' & Hu' & Hune & _). rewrite Hu in Hu'. apply app_inv_head in Hu'. subst u'.
+    destruct (assoc_get k (m_idents xm)) as [z|] eqn:Ez; [|apply assoc_get_none in Ez; contradiction].
+    pose proof (proj1 (i4_exact _ _ _ H4 m xm Hxm k z) Ez) as (_ & _ & Hspz).
+    destruct (prefix_is_path T w m z k (dest ++ u) s HNS Hspz Heq Hb) as (y & Hy1 & Hy2 & _).
+    { intros E. apply app_eq_nil in E as (_ & E). contradiction. }
+    assert (Hky : assoc_get (dest ++ u) (m_idents xm) = Some y).
+    { apply (i4_exact _ _ _ H4 m xm Hxm). split; [eapply specpath_mreach; eauto|]. split; assumption. }
+    rewrite (Hnc xm op u x Hxm Hgx Hrx Hu Hune) in Hky. discriminate Hky. }
+  assert (HB : forall op op2 u2, In op (map fst orig) -> In op2 (map fst orig) -> op2 = src ++ u2 ->
+            forall s s', boundary s = true -> boundary s' = true -> op ++ s = (dest ++ u2) ++ s' -> False).
+  { intros op op2 u2 Hop Hop2 Hu2 s s' Hb Hb' Heq.
+    destruct (Htodo op Hop) as (x & Hgx & Hrx & Hix & Hspx). destruct (Htodo op2 Hop2) as (x2 & Hgx2 & Hrx2 & Hix2 & Hspx2).
+    destruct (Hsuf op x Hgx Hrx) as (u & Hu & Hune & Hbu).
+    destruct (boundary_prefix_cmp op (dest ++ u2) s s' Hb Hb' Heq) as [(t & Ht & Hbt)|(t & Ht & Hbt)].
+    - eapply (HA op2 u2 Hop2 Hu2 op t); eauto. eapply assoc_get_some_key; eauto.
+    - assert (Heq2 : dest ++ u2 = op ++ t) by exact Ht.
+      destruct (Hsuf op2 x2 Hgx2 Hrx2) as (u2' & Hu2' & _ & Hbu2). rewrite Hu2 in Hu2'. apply app_inv_head in Hu2'. subst u2'.
+      destruct (boundary_prefix_cmp dest op u2 t Hbu2 Hbt Heq2) as [(t1 & Ht1 & Hbt1)|(t1 & Ht1 & Hbt1)].
+      + assert (Hdne : dest <> []).
+        { rewrite Ht1, Hu. intros E. apply app_eq_nil in E as (E & _). apply app_eq_nil in E as (_ & E). contradiction. }
+        destruct (self_path_owner T w m self dest HNS Hdp Hdne) as (d & Hd1 & Hd2 & Hd3).
+        assert (Hkd : assoc_get dest (m_idents xm) = Some d).
+        { apply (i4_exact _ _ _ H4 m xm Hxm). split; [eapply specpath_mreach; eauto|]. split; assumption. }
+        assert (Hone : op <> []) by (rewrite Hu; intros E; apply app_eq_nil in E as (_ & E); contradiction).
+        assert (Hxd : reach T w x d).
+        { eapply (old_form_below T w m xm x op dest d); eauto; [exact (i4_exact _ _ _ H4 m)|]. exists t1. auto. }
+        apply Hself_out. exact (reach_trans T w mv x self Hrx (reach_trans T w x d self Hxd Hd3)).
+      + destruct t1 as [|c t1'].
+        { rewrite app_nil_r in Ht1.
+          assert (Hdne : dest <> []) by (rewrite <- Ht1, Hu; intros E; apply app_eq_nil in E as (_ & E); contradiction).
+          destruct (self_path_owner T w m self dest HNS Hdp Hdne) as (d & Hd1 & Hd2 & Hd3).
+          assert (Hkd : assoc_get dest (m_idents xm) = Some d).
+          { apply (i4_exact _ _ _ H4 m xm Hxm). split; [eapply specpath_mreach; eauto|]. split; assumption. }
+          rewrite <- Ht1 in Hkd. assert (Ed : d = x) by congruence. rewrite Ed in Hd3.
+          apply Hself_out. exact (reach_trans T w mv x self Hrx Hd3). }
+        set (t1 := c :: t1') in *.
+        assert (Hu2t : u2 = t1 ++ t).
+        { rewrite Ht1 in Heq2. rewrite <- app_assoc in Heq2. apply app_inv_head in Heq2. exact Heq2. }
+        assert (Hop2eq : op2 = (src ++ t1) ++ t) by (rewrite Hu2, Hu2t, app_assoc; reflexivity).
+        destruct (prefix_is_path T w m x2 op2 (src ++ t1) t HNS Hspx2 Hop2eq Hbt) as (y & Hy1 & Hy2 & Hy3).
+        { intros E. apply app_eq_nil in E as (_ & E). discriminate E. }
+        assert (Hky : assoc_get (src ++ t1) (m_idents xm) = Some y).
+        { apply (i4_exact _ _ _ H4 m xm Hxm). split; [eapply specpath_mreach; eauto|]. split; assumption. }
+        destruct (reach_comparable T w y mv x2 HT Hy3 Hrx2) as [Hymv|Hmvy].
+        * destruct (below_old_form T w m y mv (src ++ t1) src HT Hy1 Hymv Hsp) as (q & Hq & _).
+          rewrite <- app_assoc in Hq. rewrite <- (app_nil_r src) in Hq at 1. apply app_inv_head in Hq.
+          symmetry in Hq. apply app_eq_nil in Hq as (Hq & _). discriminate Hq.
+        * rewrite Ht1 in Hgx. rewrite (Hnc xm (src ++ t1) t1 y Hxm Hky Hmvy eq_refl) in Hgx; [discriminate Hgx|].
+          unfold t1. discriminate. }
+  assert (Hsrcs : forall op, In op (map fst orig) -> exists u, op = src ++ u).
+  { intros op Hop. destruct (Htodo op Hop) as (x & Hgx & Hrx & _). destruct (Hsuf op x Hgx Hrx) as (u & Hu & _). eauto. }
+  destruct (rekey_iter src dest (m_idents xm) (map fst orig) (i4_nodup _ _ _ H4 m xm Hxm) Hsrcs HA HB) as (Hids_nd & Hget).
+  (* the index in terms of the moved subtree *)
+  assert (Hmoved_D : forall k e, moved (map fst orig) k -> assoc_get k (m_idents xm) = Some e -> reach T w mv e).
+  { intros k e (op & Hop & Hof) Hk. destruct (Htodo op Hop) as (x & Hgx & Hrx & _ & _).
+    eapply reach_trans; [exact Hrx|]. eapply (old_form_below T w m xm x op k e); eauto; [exact (i4_exact _ _ _ H4 m)|].
+    destruct (Hsuf op x Hgx Hrx) as (u & -> & Hune & _). intros E. apply app_eq_nil in E as (_ & E). contradiction. }
+  assert (HidsD : forall k2 e, assoc_get k2 (fold_left (iter_step src dest) (map fst orig) (m_idents xm)) = Some e <->
+     (reach T w mv e /\ exists q, assoc_get (src ++ q) (m_idents xm) = Some e /\ k2 = dest ++ q)
+     \/ (~ reach T w mv e /\ assoc_get k2 (m_idents xm) = Some e)).
+  { intros k2 e. rewrite Hget. split.
+    - intros [(k & Hm & -> & Hk)|(Hnm & Hk)].
+      + pose proof (Hmoved_D k e Hm Hk) as Hd. left. split; [exact Hd|]. destruct (Hsuf k e Hk Hd) as (u & -> & _ & _).
+        exists u. split; [exact Hk|]. unfold gkey. rewrite strip_prefix_app. reflexivity.
+      + right. split; [|exact Hk]. intros Hd. apply Hnm. exists k2. split; [eapply Hintodo; eauto|]. exists []. split; [rewrite app_nil_r; reflexivity|reflexivity].
+    - intros [(Hd & q & Hk & ->)|(Hnd & Hk)].
+      + left. exists (src ++ q). split; [exists (src ++ q); split; [eapply Hintodo; eauto|exists []; split; [rewrite app_nil_r; reflexivity|reflexivity]]|].
+        split; [|exact Hk]. unfold gkey. rewrite strip_prefix_app. reflexivity.
+      + right. split; [|exact Hk]. intros Hm. apply Hnd. eapply Hmoved_D; eauto. }
+  (* the per-path re-keying *)
+  wk H. rename E into Eper. match type of Eper with _ = Val (OK ?u, _) => destruct u end.
+  match type of Eper with ?each _ _ = Val (_, ?w3) =>
+    destruct (perpath_sem m src dest each eq_refl (fun _ _ => eq_refl) (map fst orig) w2 xm w3 Hxm2 Eper)
+      as (P1 & P2 & P3 & P4 & x3 & Hx3 & P5 & P6 & P7 & P8); rename w3 into w4 end.
+  (* the referrer loop *)
+  wk H. rename E into Eloop. match type of Eloop with _ = Val (OK ?u, ?w5) => destruct u; rename w5 into wl end.
+  (* insertion *)
+  wk H. rename E into Eins. apply wret_inv in H as (_ & <-).
+  unfold content_insert in Eins. wk Eins. apply get_node_inv in E as (n5 & Hn5 & Q & _). injection Q as ->.
+  destruct (N.of_nat (List.length (n_content n5)) <? pos) eqn:Elen; [discriminate Eins|].
+  apply set_node_inv in Eins as (_ & ->).
+  assert (Hself_sp : self <> sp) by (intros E; subst sp; exact (Hnotchild mn Hmn Hpar)).
+  assert (Hnode4 : forall j, w_nodes w4 j =
+     if j =? mv then Some (set_parent mn (PElem self)) else if j =? sp then Some (set_content pn (remove_at (n_content pn) kpos)) else w_nodes w j).
+  { intros j. rewrite P1. unfold w2. cbn [w_nodes]. destruct (j =? mv) eqn:Ej2; [apply N.eqb_eq in Ej2; subst j; apply upd_eq|]. apply N.eqb_neq in Ej2.
+    rewrite upd_neq by exact Ej2. destruct (j =? sp) eqn:Ej3; [apply N.eqb_eq in Ej3; subst j; apply upd_eq|]. apply N.eqb_neq in Ej3.
+    apply upd_neq. exact Ej3. }
+  assert (Hself4 : w_nodes w4 self = Some n).
+  { rewrite Hnode4. apply N.eqb_neq in Hsm. apply N.eqb_neq in Hself_sp. rewrite Hsm, Hself_sp. exact Hn. }
+  assert (Hnoref : isref T (n_type n) = false).
+  { unfold isref. destruct (is_ref T (n_type n)) as [[|]| |] eqn:Er; try reflexivity. exfalso. apply (Hselfmode n Hn). apply (tk_ref _ _ TK _ Er). }
+  assert (Hmvns : n_name mn <> SHORTN).
+  { unfold is_short_node in Hnshort. rewrite Hmn in Hnshort. apply N.eqb_neq. exact Hnshort. }
+  assert (Hmodels4 : w_models w4 = list_set (w_models w) (N.to_nat m) (set_idents xm (fold_left (iter_step src dest) (map fst orig) (m_idents xm)))).
+  { (* the only model that changed is m, and only its path index *)
+    assert (Hlen : forall l1 l2 : list model, (forall k, nth_opt l1 k = nth_opt l2 k) -> l1 = l2).
+    { induction l1 as [|y1 l1 IHl]; intros [|y2 l2] Hk; [reflexivity|specialize (Hk O); discriminate|specialize (Hk O); discriminate|].
+      pose proof (Hk O) as H0. cbn in H0. injection H0 as ->. f_equal. apply IHl. intros k. exact (Hk (S k)). }
+    apply Hlen. intros k. destruct (Nat.eq_dec k (N.to_nat m)) as [->|Hne].
+    - rewrite (list_set_nth_eq _ _ _ _ Hxm). fold (model_at w4 m). rewrite Hx3. f_equal. destruct x3 as [r3 f3 i3 o3]. cbn [m_idents m_origins m_root m_files] in P5, P6, P7, P8. subst r3 f3 i3 o3. destruct xm; reflexivity.
+    - rewrite list_set_nth_neq by exact Hne. specialize (P4 (N.of_nat k)). unfold model_at in P4. rewrite Nat2N.id in P4. rewrite P4; [reflexivity|].
+      intros E. apply Hne. rewrite <- E. rewrite Nat2N.id. reflexivity. }
+  set (inner := fun (p' : list N) => fix upd_refs (rl : list id) : W unit :=
+         match rl with
+         | [] => wret tt
+         | re :: rr => (raw_set_character_data T check_fn re (DString p') version;; upd_refs rr)%W
+         end).
+  (* the relocated world *)
+  assert (HJ0 : forall p, (p <= List.length (n_content n))%nat -> (p = O -> identifiable T w self = false) ->
+            J5 (F self (set_content n (insert_at (n_content n) p (CElem mv))) w4)).
+  { intros p Hp Hp0.
+    eapply (relocc_j5 T check_fn TK w _ mv sp self mn pn n kpos p m xm src dest _ ids); eauto.
+    - intros j. unfold F. cbn [w_nodes]. destruct (j =? mv) eqn:Ej2.
+      { apply N.eqb_eq in Ej2. subst j. rewrite upd_neq by (apply not_eq_sym; exact Hsm). rewrite Hnode4, N.eqb_refl. reflexivity. }
+      destruct (j =? sp) eqn:Ej3.
+      { apply N.eqb_eq in Ej3. subst j. rewrite upd_neq by (apply not_eq_sym; exact Hself_sp). rewrite Hnode4, Ej2, N.eqb_refl. reflexivity. }
+      destruct (j =? self) eqn:Ej4.
+      { apply N.eqb_eq in Ej4. subst j. apply upd_eq. }
+      apply N.eqb_neq in Ej4. rewrite upd_neq by exact Ej4. rewrite Hnode4, Ej2, Ej3. reflexivity.
+    - intros Hnm Hk c2 rest c2n Hc Hc2. eapply (remove_front_false T w sp pn mv kpos (N.eqb mv)); eauto. apply N.eqb_refl. }
+  (* one pass of the referrer loop *)
+  assert (Hpass : forall p, (p <= List.length (n_content n))%nat -> (p = O -> identifiable T w self = false) ->
+            w_nodes wl self = Some n /\ J5 (F self (set_content n (insert_at (n_content n) p (CElem mv))) wl)).
+  { intros p Hp Hp0.
+    match type of Eloop with ?each _ _ = _ =>
+      eapply (loop_virtual m self n (set_content n (insert_at (n_content n) p (CElem mv))) src dest each inner) with (u := w4)
+    end.
+    + reflexivity.
+    + exact Hnoref.
+    + intros p' rl wa wb Hi. exact (inner_sem_move T check_fn (inner p') p' version eq_refl (fun _ _ => eq_refl) rl wa wb Hi).
+    + reflexivity.
+    + intros k rr. destruct (strip_prefix src k); reflexivity.
+    + intros k0 Hk0 E. destruct (Htodo k0 Hk0) as (x & Hgx & Hrx & _). destruct (Hsuf k0 x Hgx Hrx) as (u & Hu & Hune & _).
+      pose proof (Hnc xm k0 u x Hxm Hgx Hrx Hu Hune) as Hfree. rewrite <- E, <- Hu in Hfree. congruence.
+    + exact Eloop.
+    + exact Hself4.
+    + apply HJ0; assumption. }
   destruct (Hpass (List.length (n_content n)) (le_n _)) as (Hn5' & _).
   { intros E0. unfold identifiable. rewrite Hn. unfold identifiable_n, short_child. destruct (n_content n); [apply andb_false_r|discriminate]. }
   assert (n5 = n) by congruence. subst n5.
@@ -543,49 +779,54 @@ Lemma src_front_false w mv mn sp : src_front T w mv = false -> w_nodes w mv = So
   remove_front T w sp (N.eqb mv) = false.
 Proof. intros H Hmn Hp. unfold src_front in H. rewrite Hmn, Hp in H. exact H. Qed.
 
-Lemma simple_move_models w h mv m m_src :
-  simple_move T w h mv = true -> model_of h w = Val (OK m, w) -> model_of mv w = Val (OK m_src, w) ->
-  identifiable T w mv = true /\ m_src = m.
-Proof.
-  intros H H1 H2. unfold simple_move in H. apply andb_true_iff in H as (Hid & Hm). rewrite H1, H2 in Hm. apply N.eqb_eq in Hm. auto.
-Qed.
+Lemma same_model_models w h mv m m_src :
+  same_model w h mv = true -> model_of h w = Val (OK m, w) -> model_of mv w = Val (OK m_src, w) -> m_src = m.
+Proof. intros H H1 H2. unfold same_model in H. rewrite H1, H2 in H. apply N.eqb_eq in H. auto. Qed.
 
 Theorem C45_move h mv w r w' :
-  J5 w -> Known04 T LATEST w (OpMove h mv) = false -> Known05 w (OpMove h mv) = false -> simple_move T w h mv = true ->
+  J5 w -> Known04 T LATEST w (OpMove h mv) = false -> Known05 w (OpMove h mv) = false -> same_model w h mv = true ->
   e_move_element_here T tab_en check_fn LATEST h mv w = Val (r, w') -> J5 w'.
 Proof.
   intros HJ HK4 HK5 Hsimple H. destruct r as [i|e].
   2:{ (* failure: nothing happened, or the late class *)
       destruct (e_move_here_fail T tab_en check_fn LATEST h mv w e w' H) as [->|(_ & Hpl)]; [exact HJ|]. exfalso.
-      cbn [Refs.Known05 run_op] in HK5. unfold welem, wbind in HK5. rewrite H in HK5. apply negb_false_iff, plink_eqb_true in HK5. contradiction. }
+      cbn [Refs.Known05 run_op] in HK5. apply orb_false_iff in HK5 as (_ & HK5). unfold welem, wbind in HK5. rewrite H in HK5. apply negb_false_iff, plink_eqb_true in HK5. contradiction. }
   pose proof HJ as (HT & H4 & H5). cbn [Known04] in HK4. apply orb_false_iff in HK4 as (HK4 & Hsrcf). apply orb_false_iff in HK4 as (Hshort & Hfront).
   unfold e_move_element_here in H. destruct (h =? mv) eqn:Ehm; [discriminate H|]. apply N.eqb_neq in Ehm.
   wk H. wk H. wk H. wk H. destruct (negb (a2 =? a1)); [discriminate H|].
   wk H. apply get_node_inv in E3 as (n & Hn & Q & _). injection Q as ->.
   wk H. apply get_node_inv in E3 as (mn & Hmn & Q & _). injection Q as ->.
   wk H. destruct a3 as (rs, re).
-  destruct (simple_move_models w h mv a0 a Hsimple E0 E) as (Hid & ->). rewrite N.eqb_refl in H.
+  pose proof (same_model_models w h mv a0 a Hsimple E0 E) as Hma. subst a. rewrite N.eqb_refl in H.
   wk H. destruct a as [p|]; [|discriminate H].
   assert (Hpar : n_parent mn = PElem p).
   { unfold parent_of in E4. destruct (n_parent mn); try discriminate E4. apply wret_inv in E4 as ([= ->] & _). reflexivity. }
   destruct (p =? h) eqn:Eph; [apply wret_inv in H as (_ & ->); exact HJ|]. apply N.eqb_neq in Eph.
-  eapply (move_local_j5 h mv re a0 a2 w w' i HJ H); eauto.
-  - apply model_of_mreach; assumption.
-  - apply model_of_mreach; assumption.
-  - intros n0 Hn0. assert (n0 = n) by congruence. subst n0. eapply calc_range_mode; eauto.
-  - intros Hre. unfold nm_of in Hfront. rewrite Hmn in Hfront.
-    destruct (front_false_end T LATEST w h n (n_name mn) a2 rs re Hn E2 E3 Hfront Hre) as (Hi & _). unfold identifiable. rewrite Hn. exact Hi.
-  - intros mn0 sp0 Hmn0 Hp0. eapply src_front_false; eauto.
-  - intros mn0 Hmn0. assert (mn0 = mn) by congruence. subst mn0. rewrite Hpar. congruence.
+  assert (Hcoll : identifiable T w mv = false -> collision06 T w h mv = false).
+  { intros Hni. cbn [Refs.Known05] in HK5. apply orb_false_iff in HK5 as (HK5 & _). rewrite Hni in HK5. exact HK5. }
+  assert (HR1 : MReach T w a0 mv) by (apply model_of_mreach; assumption).
+  assert (HR2 : MReach T w a0 h) by (apply model_of_mreach; assumption).
+  assert (HM : forall n0, w_nodes w h = Some n0 -> content_mode T (n_type n0) <> Val MCharacters).
+  { intros n0 Hn0. assert (n0 = n) by congruence. subst n0. eapply calc_range_mode; eauto. }
+  assert (HFd : N.to_nat re = O -> identifiable T w h = false).
+  { intros Hre. unfold nm_of in Hfront. rewrite Hmn in Hfront.
+    destruct (front_false_end T LATEST w h n (n_name mn) a2 rs re Hn E2 E3 Hfront Hre) as (Hi & _). unfold identifiable. rewrite Hn. exact Hi. }
+  assert (HFs : forall mn0 sp0, w_nodes w mv = Some mn0 -> n_parent mn0 = PElem sp0 -> remove_front T w sp0 (N.eqb mv) = false).
+  { intros mn0 sp0 Hmn0 Hp0. eapply src_front_false; eauto. }
+  assert (HNc : forall mn0, w_nodes w mv = Some mn0 -> n_parent mn0 <> PElem h).
+  { intros mn0 Hmn0. assert (mn0 = mn) by congruence. subst mn0. rewrite Hpar. congruence. }
+  destruct (identifiable T w mv) eqn:Hid.
+  - eapply (move_local_j5 h mv re a0 a2 w w' i HJ H); eauto.
+  - eapply (move_local_container_j5 h mv re a0 a2 w w' i HJ H); eauto.
 Qed.
 
 Theorem C45_move_at h mv pos w r w' :
-  J5 w -> Known04 T LATEST w (OpMoveAt h mv pos) = false -> Known05 w (OpMoveAt h mv pos) = false -> simple_move T w h mv = true ->
+  J5 w -> Known04 T LATEST w (OpMoveAt h mv pos) = false -> Known05 w (OpMoveAt h mv pos) = false -> same_model w h mv = true ->
   e_move_element_here_at T tab_en check_fn LATEST h mv pos w = Val (r, w') -> J5 w'.
 Proof.
   intros HJ HK4 HK5 Hsimple H. destruct r as [i|e].
   2:{ destruct (e_move_here_at_fail T tab_en check_fn LATEST h mv pos w e w' H) as [->|(_ & Hpl)]; [exact HJ|]. exfalso.
-      cbn [Refs.Known05 run_op] in HK5. unfold welem, wbind in HK5. rewrite H in HK5. apply negb_false_iff, plink_eqb_true in HK5. contradiction. }
+      cbn [Refs.Known05 run_op] in HK5. apply orb_false_iff in HK5 as (_ & HK5). unfold welem, wbind in HK5. rewrite H in HK5. apply negb_false_iff, plink_eqb_true in HK5. contradiction. }
   pose proof HJ as (HT & H4 & H5). cbn [Known04] in HK4. apply orb_false_iff in HK4 as (HK4 & Hspn). apply orb_false_iff in HK4 as (HK4 & Hsrcf).
   apply orb_false_iff in HK4 as (Hshort & Hfront).
   unfold e_move_element_here_at in H. destruct (h =? mv) eqn:Ehm; [discriminate H|]. apply N.eqb_neq in Ehm.
@@ -594,7 +835,7 @@ Proof.
   wk H. apply get_node_inv in E3 as (mn & Hmn & Q & _). injection Q as ->.
   wk H. destruct a3 as (rs, re).
   destruct ((rs <=? pos) && (pos <=? re)); [|discriminate H].
-  destruct (simple_move_models w h mv a0 a Hsimple E0 E) as (Hid & ->). rewrite N.eqb_refl in H.
+  pose proof (same_model_models w h mv a0 a Hsimple E0 E) as Hma. subst a. rewrite N.eqb_refl in H.
   wk H. destruct a as [p|]; [|discriminate H].
   assert (Hpar : n_parent mn = PElem p).
   { unfold parent_of in E4. destruct (n_parent mn); try discriminate E4. apply wret_inv in E4 as ([= ->] & _). reflexivity. }
@@ -615,14 +856,22 @@ Proof.
     + apply nodup_elem_ids_insert_any; assumption.
     + exists mv. eapply index_of_citem; eauto.
   - apply N.eqb_neq in Eph.
-    eapply (move_local_j5 h mv pos a0 a2 w w' i HJ H); eauto.
-    + apply model_of_mreach; assumption.
-    + apply model_of_mreach; assumption.
-    + intros n0 Hn0. assert (n0 = n) by congruence. subst n0. eapply calc_range_mode; eauto.
-    + intros Hre. unfold nm_of in Hfront. rewrite Hmn in Hfront.
-      destruct (front_false_at T LATEST w h n (n_name mn) pos Hn Hfront Hre) as (Hi & _). unfold identifiable. rewrite Hn. exact Hi.
-    + intros mn0 sp0 Hmn0 Hp0. eapply src_front_false; eauto.
-    + intros mn0 Hmn0. assert (mn0 = mn) by congruence. subst mn0. rewrite Hpar. congruence.
+    assert (Hcoll : identifiable T w mv = false -> collision06 T w h mv = false).
+    { intros Hni. cbn [Refs.Known05] in HK5. apply orb_false_iff in HK5 as (HK5 & _). rewrite Hni in HK5. exact HK5. }
+    assert (HR1 : MReach T w a0 mv) by (apply model_of_mreach; assumption).
+    assert (HR2 : MReach T w a0 h) by (apply model_of_mreach; assumption).
+    assert (HM : forall n0, w_nodes w h = Some n0 -> content_mode T (n_type n0) <> Val MCharacters).
+    { intros n0 Hn0. assert (n0 = n) by congruence. subst n0. eapply calc_range_mode; eauto. }
+    assert (HFd : N.to_nat pos = O -> identifiable T w h = false).
+    { intros Hre. unfold nm_of in Hfront. rewrite Hmn in Hfront.
+      destruct (front_false_at T LATEST w h n (n_name mn) pos Hn Hfront Hre) as (Hi & _). unfold identifiable. rewrite Hn. exact Hi. }
+    assert (HFs : forall mn0 sp0, w_nodes w mv = Some mn0 -> n_parent mn0 = PElem sp0 -> remove_front T w sp0 (N.eqb mv) = false).
+    { intros mn0 sp0 Hmn0 Hp0. eapply src_front_false; eauto. }
+    assert (HNc : forall mn0, w_nodes w mv = Some mn0 -> n_parent mn0 <> PElem h).
+    { intros mn0 Hmn0. assert (mn0 = mn) by congruence. subst mn0. rewrite Hpar. congruence. }
+    destruct (identifiable T w mv) eqn:Hid.
+    + eapply (move_local_j5 h mv pos a0 a2 w w' i HJ H); eauto.
+    + eapply (move_local_container_j5 h mv pos a0 a2 w w' i HJ H); eauto.
 Qed.
 
 End MoveOp.
